@@ -444,6 +444,7 @@ pub fn run(rep: &mut Report, rng: &mut Rng, thorough: bool) {
     run_encwin_script(rep, &mut rng.fork(), thorough, sweep, "");
     crate::twin::run_mf(rep, &mut rng.fork(), thorough, sweep);
     crate::twin::run_mf_adv(rep, &mut rng.fork(), thorough, sweep);
+    crate::twin::run_mf_renorm(rep, &mut rng.fork(), thorough, sweep);
     crate::twin::run_encfast(rep, &mut rng.fork(), thorough, sweep);
     // the LZMA2 writer in fast mode against `Model/Lzma2Writer.lean` (`lzma2w.fast`), byte for byte
     crate::lzma2w::run_lzma2w(rep, &mut rng.fork(), if thorough { 900 } else if sweep { 300 } else { 80 }, thorough, !thorough);
